@@ -264,6 +264,7 @@ func (bf *buffer) Read(p []byte) (int, error) {
 		bf.ccond.L.Lock()
 		for ppos = bf.pseq.get(); cpos >= ppos; ppos = bf.pseq.get() {
 			if bf.isDone() {
+				bf.ccond.L.Unlock()
 				return 0, io.EOF
 			}
 
